@@ -123,7 +123,7 @@ def check(case):
         if set(out.nodes()) != set(R.before[0]):
             raise Violation("node-set", "returned graph has a different vertex set")
         for v, d in R.before[0].items():
-            if dict(out.nodes[v]) != d:
+            if M._plain(dict(out.nodes[v])) != d:
                 raise Violation("node-annotation", f"vertex {v} annotation {dict(out.nodes[v])} != {d}")
         final = M.snapshot(out)[1]
         if any(len(e) == 1 for e in final):
